@@ -245,6 +245,17 @@ pub fn gen_c18(tier: &str, seed: u64, out: &mut Vec<String>) {
             prog.push(mov_r_imm32(3, (CODE + 9 + rng.below(6)) as u32));
             prog.push(if rng.chance(1, 2) { jmp_r(3) } else { call_r(3) });
         }
+        if k % 5 == 3 {
+            // one indirect jump taken several times in a row with changing targets (no other transfer in between):
+            //   0: mov eax, &3 ; 1: jmp 4 ; 2: nop ; 3: mov eax, &(5|6) ; 4: jmp rax ; 5: nop ; 6: nop
+            // repeated jumps to the *same* target are produced by the loops of random_program
+            let build = |a3: u64, a5: u64| -> Vec<Ins> {
+                vec![mov_r_imm32(0, a3 as u32), jmp(4, false), nop(), mov_r_imm32(0, a5 as u32), jmp_r(0), nop(), nop()]
+            };
+            let (_, addrs) = assemble(&build(0, 0), CODE);
+            let second = if rng.chance(1, 2) { addrs[5] } else { addrs[6] };
+            prog = build(addrs[3], second);
+        }
         prog.extend(random_program(&mut rng, plen, true));
         let (code, _) = assemble(&prog, CODE);
         emit_new(out, &code, CODE);
@@ -350,9 +361,12 @@ pub fn gen_c13(tier: &str, seed: u64, out: &mut Vec<String>) {
         emit_new(out, &code, CODE);
         out.push(setregs_at(&mut rng, CODE));
         // surrounding layout: some areas right where the heap search starts
+        let mut neighbours: Vec<(u64, u64)> = vec![];
         for _ in 0..rng.below(4) {
             let start = 0x1000 * (1 + rng.below(6));
-            out.push(format!("zero {:x} {:x} ~", start, 1 + rng.below(0x1800)));
+            let len = 1 + rng.below(0x1800);
+            out.push(format!("zero {:x} {:x} ~", start, len));
+            neighbours.push((start, len));
         }
         let mut sys = vec!["12"];
         if rng.chance(1, 2) {
@@ -368,9 +382,14 @@ pub fn gen_c13(tier: &str, seed: u64, out: &mut Vec<String>) {
             let arg = if c == 0 || rng.chance(1, 4) {
                 0
             } else {
-                match rng.below(6) {
+                match rng.below(9) {
                     0 => heap_hint.wrapping_sub(1 + rng.below(0x10)),  // below the base
                     1 => heap_hint,                                     // shrink to 0
+                    2 | 3 | 4 if !neighbours.is_empty() => {
+                        // exactly at / around the edges of a neighbouring area: the new break may touch but not enter it
+                        let (s, l) = *rng.pick(&neighbours);
+                        *rng.pick(&[s.wrapping_sub(1), s, s + 1, s + 2, s + l - 1, s + l, s + l + 1])
+                    }
                     _ => heap_hint + rng.below(0x3000),
                 }
             };
